@@ -169,3 +169,12 @@ Proof. reflexivity. Qed.
 Example onion_bordas_hypotheses_satisfiable :
   wfR 2 3 [[1; -2; 3]; [0; 5; -1]] /\ (forall i j j' : nat, (fun i _ => / INR (S i)) i j = (fun i _ => / INR (S i)) i j').
 Proof. split; [split; [reflexivity|repeat constructor]|reflexivity]. Qed.
+
+(* the model is not degenerate: a width-3 row with the tables val1[i,j] = i+j+1, val2 = 1, worked by hand
+   (peel: 3/5, then rest = [-2/5; -4/5] and -2/15; last column duplicated; flipped; halved) *)
+Example onion_bordas_model_nontrivial :
+  ob_rowR (fun i j => INR i + INR j + 1) (fun _ _ => 1) 0 1 [1; 2; 3] = [-1/15; -1/15; 3/10].
+Proof.
+  unfold ob_rowR, ob_row. cbn [length rev app Nat.sub peel upd last map].
+  cbn [INR]. repeat (f_equal; try (field; lra)); try lra.
+Qed.
